@@ -7,7 +7,8 @@
 From Coq Require Import ZArith List Bool.
 Import ListNotations.
 From Cedar Require Import Lang.Value Base.Json Impl.Scanner Impl.Tokenizer Impl.Quote Impl.Parser Impl.PolicyJson Impl.SchemaResolve
-  Impl.SchemaJson Impl.SchemaText Proofs.SchemaTextProofs1 Proofs.ScannerFailure Proofs.DecoderTotal Proofs.SchemaResolveProofs Proofs.SchemaJsonProofs.
+  Impl.SchemaJson Impl.SchemaText Impl.EntityJson Impl.RequestJson Proofs.SchemaTextProofs1 Proofs.ScannerFailure Proofs.DecoderTotal Proofs.SchemaResolveProofs Proofs.SchemaJsonProofs
+  Proofs.EntityJsonProofs Proofs.RequestJsonProofs Proofs.CodecCommute.
 
 (* the streaming tokenizer: every reader (any chunking, failing or not), any bytes *)
 Theorem C10_tokenizer_terminates : forall b r fuel,
@@ -41,6 +42,21 @@ Proof. exact dec_schema_total. Qed.
 Theorem C10_schema_text_terminates : forall src, parse_schema src <> SFuel.
 Proof. exact parse_schema_total. Qed.
 
+(* entity maps, requests, diagnostics, policy sets: every JSON tree (value JSON and the entity-uid text parser are structural recursions
+   without fuel) *)
+Theorem C10_entity_map_json_terminates : forall j, dec_entity_map j <> DFuel.
+Proof. exact dec_entity_map_total. Qed.
+Theorem C10_request_json_terminates : forall j, dec_request j <> DFuel.
+Proof. exact dec_request_total. Qed.
+Theorem C10_diagnostic_json_terminates : forall j, dec_diagnostic j <> DFuel.
+Proof. exact dec_diagnostic_total. Qed.
+Theorem C10_policy_set_json_terminates : forall j, dec_policy_set j <> DFuel.
+Proof. exact dec_policy_set_total. Qed.
+
+Print Assumptions C10_entity_map_json_terminates.
+Print Assumptions C10_request_json_terminates.
+Print Assumptions C10_diagnostic_json_terminates.
+Print Assumptions C10_policy_set_json_terminates.
 Print Assumptions C10_schema_text_terminates.
 Print Assumptions C10_schema_json_terminates.
 Print Assumptions C10_tokenizer_terminates.
